@@ -153,6 +153,19 @@ struct Stats {
     inconclusive_samples: Vec<String>,
 }
 
+/// Placeholder report for a library-level part when the harness was built without the `lib` feature because pgcat's crate
+/// no longer offers the API those parts call (./check falls back to that build): the property's wire half still runs.
+#[allow(dead_code)]
+pub fn lib_unavailable(prop: &str, name: &str) -> PartReport {
+    PartReport {
+        prop: prop.into(),
+        name: name.into(),
+        rule: "library-level half: not built".into(),
+        harness_error: Some("the library-level half of this check does not build against /repo (pgcat's internal API changed): see /verif/target/build-harness.log; the wire half was run".into()),
+        ..Default::default()
+    }
+}
+
 pub fn fnv(s: &[u8]) -> u64 {
     let mut h: u64 = 0xcbf29ce484222325;
     for b in s {
